@@ -60,7 +60,7 @@ Print Assumptions C12_checker_iff.
 
 (* non-vacuity: the example run of Props/C11.v has a non-negative target and creates edges *)
 Example C12_nonvacuous :
-  let nodes := [[1;1];[0;1];[1;1];[0;1]]%Z in
+  let nodes := [[1;1];[1;1];[1;1];[1;1]]%Z in
   let es := [mkE 0 1 0 0; mkE 2 3 0 1]%Z in
   let tg := [[([0;1;0;1]%Z, 1#2)]] in
   step_allowed nodes tg es [mkE 0 3 0 0; mkE 1 2 0 1]%Z = true /\
